@@ -54,7 +54,8 @@ pub const K_EQ_ORD_CHECK: u8 = 28;
 pub const K_PUSH_SELF_CLONE: u8 = 29;
 pub const K_PUSH_BIG: u8 = 30;
 pub const K_READ_TO_TENDRIL: u8 = 31;
-pub const N_KINDS: u8 = 32;
+pub const K_CLONE_FROM: u8 = 32;
+pub const N_KINDS: u8 = 33;
 
 pub fn kind_name(k: u8) -> &'static str {
     match k {
@@ -90,6 +91,7 @@ pub fn kind_name(k: u8) -> &'static str {
         K_PUSH_SELF_CLONE => "push_tendril(clone of self)",
         K_PUSH_BIG => "push_big",
         K_READ_TO_TENDRIL => "read_to_tendril",
+        K_CLONE_FROM => "clone_from",
         _ => "?",
     }
 }
@@ -642,7 +644,13 @@ pub fn gen_history<F: FmtSpec>(rng: &mut Rng, max_ops: usize) -> Vec<Op> {
             k if k < N_KINDS => k,
             _ => K_CLONE,
         };
-        let kind = if rng.chance(1, 40) { K_READ_TO_TENDRIL } else { kind };
+        let kind = if rng.chance(1, 40) {
+            K_READ_TO_TENDRIL
+        } else if rng.chance(1, 30) {
+            K_CLONE_FROM
+        } else {
+            kind
+        };
         let a = rng.below(POOL) as u32;
         let mut b = rng.below(POOL) as u32;
         let mut c = rng.below(80) as u32;
@@ -944,6 +952,21 @@ pub fn run_history<F: FmtSpec, A: Atomicity>(ops: &[Op], obs: &mut dyn Observer)
                 pool[j] = c;
                 model[j] = model[i].clone();
             },
+            K_CLONE_FROM => {
+                // Clone::clone_from (what Vec<Tendril>::clone_from calls per element): slot j
+                // becomes a copy of slot i, whatever slot j held before
+                if i != j {
+                    let (a, b) = if i < j {
+                        let (l, r) = pool.split_at_mut(j);
+                        (&l[i], &mut r[0])
+                    } else {
+                        let (l, r) = pool.split_at_mut(i);
+                        (&r[0], &mut l[j])
+                    };
+                    b.clone_from(a);
+                    model[j] = model[i].clone();
+                }
+            },
             K_CLEAR => {
                 pool[i].clear();
                 model[i].clear();
@@ -1098,7 +1121,7 @@ pub fn run_history<F: FmtSpec, A: Atomicity>(ops: &[Op], obs: &mut dyn Observer)
         for k in 0..POOL {
             let bytes: &[u8] = pool[k].as_bytes().as_ref();
             if bytes != &model[k][..] {
-                let class = if k == i || (k == j && matches!(op.kind, K_CLONE | K_POP_FRONT_CHAR_RUN | K_PUSH_SELF_CLONE)) || op.data.first().map(|d| *d as usize % POOL) == Some(k) {
+                let class = if k == i || (k == j && matches!(op.kind, K_CLONE | K_CLONE_FROM | K_POP_FRONT_CHAR_RUN | K_PUSH_SELF_CLONE)) || op.data.first().map(|d| *d as usize % POOL) == Some(k) {
                     "value-differs"
                 } else {
                     "other-tendril-changed"
@@ -1119,7 +1142,38 @@ pub fn run_history<F: FmtSpec, A: Atomicity>(ops: &[Op], obs: &mut dyn Observer)
     Ok(digest)
 }
 
+// ---- API-surface probe: a SendTendril may cross threads only because it is the unique owner of
+// its buffer (the refcount it carries is the non-atomic one).  Should SendTendril ever become
+// duplicable, the duplicates must not alias one buffer.  Compiles whether or not it is `Clone`.
+struct CloneProbe<'a, T>(&'a T);
+trait NotClone<T> {
+    fn try_clone(&self) -> Option<T> {
+        None
+    }
+}
+impl<'a, T> NotClone<T> for CloneProbe<'a, T> {}
+impl<'a, T: Clone> CloneProbe<'a, T> {
+    fn try_clone(&self) -> Option<T> {
+        Some(self.0.clone())
+    }
+}
+
+pub fn send_tendril_alias_probe() -> Result<(), Fail> {
+    let s1: SendTendril<fmt::UTF8> = Tendril::<fmt::UTF8, NonAtomic>::from_slice("a heap allocated tendril, more than eight bytes").into_send();
+    let s2 = match CloneProbe(&s1).try_clone() {
+        Some(s) => s,
+        None => return Ok(()),
+    };
+    let a: Tendril<fmt::UTF8, NonAtomic> = s1.into();
+    let b: Tendril<fmt::UTF8, NonAtomic> = s2.into();
+    if a.is_shared_with(&b) || a.is_shared() || b.is_shared() {
+        return Err(fail("send-tendril-aliased", "SendTendril can be duplicated and the duplicates share one buffer, whose reference count is not atomic: two threads may now update it".into()));
+    }
+    Ok(())
+}
+
 /// Format / atomicity selector shared by all front ends.
+
 pub fn run_selected(fmt_id: u8, atomic: bool, ops: &[Op], obs: &mut dyn Observer) -> Result<u64, Fail> {
     match (fmt_id % 5, atomic) {
         (0, false) => run_history::<fmt::UTF8, NonAtomic>(ops, obs),
